@@ -242,9 +242,13 @@ func snapshotBodies(v reflect.Value) {
 }
 
 // rbody is a re-readable body: dumps drain it and rewind it.
-type rbody struct{ *bytes.Reader }
+// It deliberately offers Read / Seek / Close only (no WriteTo, no ReadFrom), so that io.Copy and
+// friends take their generic buffered path, as they do for a network or file body.
+type rbody struct{ r *bytes.Reader }
 
-func (rbody) Close() error { return nil }
+func (b rbody) Read(p []byte) (int, error)                { return b.r.Read(p) }
+func (b rbody) Seek(off int64, whence int) (int64, error) { return b.r.Seek(off, whence) }
+func (rbody) Close() error                                { return nil }
 
 type recordingClient struct {
 	api  http.Handler
